@@ -66,12 +66,12 @@ reg('C10', 'harness.keys', design_ref='6/C10',
     stubs=KEY_STUBS, assumptions=KEY_ASSUME, expect_labels=['C10:distinct'])
 reg('C11', 'harness.keys', design_ref='6/C11',
     bounds={'quick': '24 shapes x ignore specifications of <= 3 elements drawn from parameter names, indices, \'*\', \'**\' (a selection) x {raw, str} keymaps + klepto.keygen; single-element specifications also given bare (ignore=0, ignore=\'a\'); methods with self ignored by name, alone and with names, * and **',
-            'thorough': 'the 72 shapes with at most 2 positional-or-keyword and 1 keyword-only parameter (plus the quick shapes) x every specification of <= 2 elements and a spread of the 3-element ones x 4 keymaps'},
+            'thorough': 'the 72 shapes with at most 2 positional-or-keyword and 1 keyword-only parameter (plus the quick shapes) x every 1-element specification, 8 of the 2-element and 2 of the 3-element ones x 3 keymaps'},
     outside='presence/absence of an extra argument that is ignored by index or by name (not specified by the statement: neither direction demanded); index specifications on methods whose self is ignored (klepto renumbers after removing self: not specified)',
     stubs=KEY_STUBS, assumptions=KEY_ASSUME, expect_labels=['C11:merges', 'C11:discriminates'])
 reg('C17', 'harness.keys', design_ref='6/C17',
     bounds={'quick': '24 shapes x ignore specifications (<= 3 elements) x 5 keymaps: the key of one call computed under two independent symbolic iteration orders of every set built in klepto._inspect/klepto.keymaps; session scenario: session 1 has first computed the key of a call that differs only in the type of an equal argument (1 / 1.0 / True), session 2 is fresh (every mutable module-level container of klepto reset, python hash() values differ): key and dir_archive entry name must agree; entry name of 11 concrete key witnesses (path separators, blanks, pickled bytes, ints, tuples) in two sessions',
-            'thorough': 'the 72 shapes with at most 2 positional-or-keyword and 1 keyword-only parameter (plus the quick shapes) x every specification of <= 2 elements and a spread of the 3-element ones x 6 keymaps; session scenario on all such shapes x 12 keymaps'},
+            'thorough': 'the 72 shapes with at most 2 positional-or-keyword and 1 keyword-only parameter (plus the quick shapes) x every 1-element specification, 8 of the 2-element and 2 of the 3-element ones x 6 keymaps; session scenario on all such shapes x 12 keymaps'},
     outside='that archived results are then found by a later OS process (C04, excluded there); process state kept anywhere else than in set iteration order, python hash() values, keyword order and mutable module-level containers / lru_cache wrappers of the klepto modules (e.g. closure cells)',
     stubs=KEY_STUBS + ['names `set`/`frozenset` in klepto._inspect / klepto.keymaps / klepto._archives, and the set constants those modules built at import -> subclasses with symbolic iteration order: every permutation up to 4 elements, the family {sorted, reversed, rotated, odd-first} above (set displays would bypass it; none occur in the anchored code)', 'python hash() -> injective wrapper tagged with the simulated session'],
     assumptions=KEY_ASSUME, expect_labels=['C17:stable'])
